@@ -4,7 +4,8 @@ set -e
 cd "$(dirname "$0")/.."
 export GOFLAGS=-mod=mod GOPROXY=off
 cp /repo/go.sum harness/go.sum
-(cd harness && go vet -tags verif ./... >/dev/null 2>&1 || true; go test -tags verif -count=1 -vet=off -run '^$' ./... >/dev/null)
+# cache warm-up only: a package that does not build makes ITS check inconclusive, not the setup fail
+(cd harness && go test -tags verif -count=1 -vet=off -run '^$' ./... >/dev/null 2>&1 || echo "setup: harness warm-up incomplete")
 java -cp /opt/veriftools/tla/tla2tools.jar tlc2.TLC -h >/dev/null 2>&1 || true
 mkdir -p .work evidence
 echo setup-ok
